@@ -233,7 +233,8 @@ Proof.
     + rewrite positive_N_nat. apply (powmod_cong_sqr D OK); try assumption.
       intros A. apply modin_spec; assumption.
     + intros _. unfold powmod. rewrite !(degree_len D).
-      pose proof (powmod_pos_deg kthr sthr (setdegree D U0) NU HU p (assign D [I_]) (mod_ D kthr sthr P (setdegree D U0))) as H.
+      pose proof (powmod_pos_deg kthr sthr (setdegree D U0) NU HU p (if e0 then mod_ D kthr sthr [I_] (setdegree D U0) else assign D [I_])
+                    (mod_ D kthr sthr P (setdegree D U0))) as H.
       rewrite !(degree_len D) in H. unfold ProofsRev.len in *. rewrite !(setdegree_idem D OK) in *. exact H.
 Qed.
 End Modin.
